@@ -102,6 +102,8 @@ fn opts_for(prop: &str, variant: &str, rng: &mut Rng, tier: Tier) -> WsOpts {
             o.file.alias = rng.chance(400);
             o.self_dep_per_mille = 450;
             o.helper_self_dep_per_mille = if rng.chance(600) { 500 } else { 0 };
+            // a helper module that defines a name twice, the second time requesting it: the first is overwritten
+            o.same_file_dups = rng.chance(300);
         }
         "C05" => {
             o.same_file_dups = rng.chance(500);
